@@ -239,6 +239,7 @@ func NewWorld(r *Rng, o WorldOpts) *GenWorld {
 	}
 	pub := make([][]FuncSig, len(names))
 	stdOf := map[int][]string{}
+	sharedGlobals := r.Chance(8) // (one world in twelve: its main program is usually rejected)
 	for i := len(names) - 1; i >= 0; i-- {
 		imps := []ModuleRef{}
 		for n, j := range edges[i] {
@@ -286,6 +287,7 @@ func NewWorld(r *Rng, o WorldOpts) *GenWorld {
 			f.MaxBody = min(f.MaxBody, 2)
 		}
 		f.PublicFuncs = i > 0
+		f.SharedGlobals = sharedGlobals
 		f.LibScoped = i > 0 && r.Chance(85)
 		if r.Chance(50) {
 			f.WorldPaths = worldPaths(names[i])
